@@ -1,0 +1,8 @@
+// +build verif
+
+package chain
+
+import "github.com/LemoFoundationLtd/lemochain-core/chain/consensus"
+
+// VerifEngine exposes the consensus engine to the verification harness.
+func (bc *BlockChain) VerifEngine() *consensus.DPoVP { return bc.engine }
